@@ -51,6 +51,11 @@ def cases(tier):
                     for et in ([], [UNK_ETM, db_etm[0]], [db_etm[0], UNK_ETM], [db_etm[0], UNK_ETM, db_etm[1]]):
                         if ch or cb or et:
                             out.append((role, marker, tuple(ch), tuple(cb), tuple(et), 'mixed'))
+    # the peer hangs up right after its KEXINIT: our own writes fail, everything it sent is still readable - same verdict, same role
+    for role in ('server', 'client'):
+        for marker in ('none', 'own', 'other', 'both'):
+            for ch, cb, et in (([dch], [], []), ([], [db_cbc[0]], [db_etm[0]]), ([dch], [db_cbc[0]], [db_etm[0]]), ([], [], [])):
+                out.append((role, marker, tuple(ch), tuple(cb), tuple(et), 'hangup'))
     # long lists: the relevant name behind N other names, N on both sides of 50, 64, 128 and 255
     for role in ('server', 'client'):
         for marker in ('none', 'own'):
@@ -60,7 +65,7 @@ def cases(tier):
     return out
 
 
-CTX_BANNER = {'default': b'SSH-2.0-OpenSSH_9.6', 'mixed': b'SSH-2.0-OpenSSH_9.6', 'unrecognised': b'SSH-2.0-AcmeSSH_1.0', 'flawless': b'SSH-2.0-OpenSSH_9.6'}
+CTX_BANNER = {'default': b'SSH-2.0-OpenSSH_9.6', 'mixed': b'SSH-2.0-OpenSSH_9.6', 'hangup': b'SSH-2.0-OpenSSH_9.6', 'unrecognised': b'SSH-2.0-AcmeSSH_1.0', 'flawless': b'SSH-2.0-OpenSSH_9.6'}
 
 
 def banner_of(case):
@@ -106,11 +111,12 @@ def run_one(case, fmt):
     role, marker, ch, cb, et = case[:5]
     kex, enc, mac = build(case)
     opts = ['-n'] + (['-j'] if fmt == 'json' else [])
+    hang = len(case) > 5 and case[5] == 'hangup'
     if role == 'server':
         srv = peer.Server(kex=kex, enc=enc, mac=mac, banner=banner_of(case))
-        return H.audit(srv, opts=opts + ['--skip-rate-test']), kex, enc, mac
+        return H.audit(srv, opts=opts + ['--skip-rate-test'], faults={('srv', 0, 1): ('then_reset',)} if hang else None), kex, enc, mac
     cli = peer.Client(kex=kex, enc=enc, mac=mac, banner=banner_of(case))
-    return H.client_audit(cli, opts=opts), kex, enc, mac
+    return H.client_audit(cli, opts=opts, faults={('cli', 0, 1): ('then_reset',)} if hang else None), kex, enc, mac
 
 
 def check_case(case, st):
